@@ -78,7 +78,15 @@ MustKeep(g) == g.acked \ (g.pruned \cup g.excused)
 MustKeepSeq(g) == SelectSeq([k \in 1..Len(g.written) |-> g.written[k].id], LAMBDA x : x \in MustKeep(g))
 RecById(g, id) == g.written[CHOOSE k \in 1..Len(g.written) : g.written[k].id = id]
 
+\* ids in the tail of a rotated file that was written and never fsync'ed (observed system calls)
+UnsyncedRotated(p) ==
+  UNION {LET its == NormItems(p.files[k].items) IN
+         AnyIds(SubSeq(its, SyncedLen(its, 1, p.files[k].size - p.files[k].usz) + 1, Len(its))) : k \in 1..Len(p.files)}
+
 \* properties that must hold on every observed state
+StateViolP(x, g, ev, p) ==
+       Viol(~(MustKeep(g) \subseteq (DurableIds(x) \ UnsyncedRotated(p))), "AckedDurable", ev)
+  \cup Viol(~(MustKeep(g) \subseteq OnDiskIds(x)), "PruneWholeOldest", "acked record gone:" \o ev)
 StateViol(x, g, ev) ==
        Viol(~(MustKeep(g) \subseteq DurableIds(x)), "AckedDurable", ev)
   \cup Viol(~(MustKeep(g) \subseteq OnDiskIds(x)), "PruneWholeOldest", "acked record gone:" \o ev)
@@ -136,7 +144,7 @@ Accept(pred, obs, g, e) ==
   /\ w' = obs
   /\ gh' = g
   /\ drift' = drift \cup Drift(~Same(pred, obs), e.ev \o ": " \o WhatDiffers(pred, obs))
-  /\ viol' = viol \cup StateViol(obs, g, e.ev)
+  /\ viol' = viol \cup StateViolP(obs, g, e.ev, e.post)
 
 StepReset(e) ==
   /\ w' = EmptyWal(e.cap, e.headLimit, e.totalLimit)
